@@ -26,6 +26,7 @@ EXPLANATION = (
     "sources (loader responses, registry JSON, npm resolver results) to every panic site reachable from the build entry points (PU)."
 )
 NOT_DECIDED = "that modules not depending on a failure load exactly as without it; termination of arbitrary Loader futures; panics inside dependencies (swc, url, deno_media_type)"
+CONFIGS = ["default", "nofastcheck"]  # thorough tier also analyses the build without fast_check / symbols
 ASSUMPTIONS = [
     "loader futures complete (termination of foreign code is not decided)",
     "taint sources are the declared loader/registry/npm response types; values reachable only through `self` receivers are not followed interprocedurally",
